@@ -94,6 +94,14 @@ fn four_squares(rng: &mut Prng, r: i64, lim: i64) -> Option<[i64; 4]> {
 /// Build a triple whose norm ||(s1, s2)||^2 is exactly `target`.
 /// `edge`: put one coordinate of s1 at +-6144 (the ends of the centred range).
 pub fn exact_norm_triple(p: Params, ntt: &Ntt, rng: &mut Prng, target: i64, edge: bool) -> Option<Triple> {
+    exact_norm_triple_fill(p, ntt, rng, target, edge, None)
+}
+
+/// As above; with `fill = Some(slack)` the compressed s2 occupies exactly
+/// 8L - slack bits of the L-byte budget (slack 0 = the stop bit of the last
+/// coefficient is the last bit of the buffer), and the last coefficient gets a
+/// non-empty unary part in half of the cases.
+pub fn exact_norm_triple_fill(p: Params, ntt: &Ntt, rng: &mut Prng, target: i64, edge: bool, fill: Option<usize>) -> Option<Triple> {
     let n = p.n;
     let msg = crate::world::message(rng);
     let salt = rng.bytes(40);
@@ -115,7 +123,29 @@ pub fn exact_norm_triple(p: Params, ntt: &Ntt, rng: &mut Prng, target: i64, edge
             return None;
         }
         let sigma2 = ((budget as f64) * frac / n as f64).sqrt().min(170.0);
-        let s2: Vec<i64> = (0..n).map(|_| gaussish(rng, sigma2)).collect();
+        let mut s2: Vec<i64> = (0..n).map(|_| gaussish(rng, sigma2)).collect();
+        if let Some(slack) = fill {
+            let want = (p.sig_len - 41) * 8 - slack;
+            if rng.chance(1, 2) {
+                let m = 128 + rng.below(256) as i64;
+                s2[n - 1] = if rng.chance(1, 2) { m } else { -m };
+            }
+            let bits = |v: &[i64]| v.iter().map(|x| 9 + (x.unsigned_abs() >> 7) as usize).sum::<usize>();
+            let mut guard = 0;
+            while bits(&s2) != want && guard < 200000 {
+                guard += 1;
+                let i = rng.usize_below(n);
+                let b = bits(&s2);
+                if b < want {
+                    s2[i] += if s2[i] >= 0 { 128 } else { -128 };
+                } else if s2[i].abs() >= 128 {
+                    s2[i] -= if s2[i] > 0 { 128 } else { -128 };
+                }
+            }
+            if bits(&s2) != want {
+                continue;
+            }
+        }
         let n2: i64 = s2.iter().map(|x| x * x).sum();
         let sig = match codec::sig_encode(p, &salt, &s2) {
             Some(s) => s,
@@ -168,7 +198,7 @@ pub fn exact_norm_triple(p: Params, ntt: &Ntt, rng: &mut Prng, target: i64, edge
             pk,
             norm,
             s1_max: s1.iter().map(|x| x.abs()).max().unwrap_or(0),
-            note: format!("Z1 target={} edge={} |s2|^2={}", target, edge, n2),
+            note: format!("Z1 target={} edge={} |s2|^2={} fill={:?}", target, edge, n2, fill),
         });
     }
     None
